@@ -166,7 +166,17 @@ class FakeSocket:
         self.opts = []
 
     def getpeername(self):
-        return (self.host, self.port, 0, 0) if ":" in self.host else (self.host, self.port)
+        if ":" not in self.host:
+            return (self.host, self.port)
+        # what the kernel + getnameinfo(NI_NUMERICHOST) report: the compressed canonical text, with the zone kept for a scoped address
+        import ipaddress
+
+        base, _, zone = self.host.partition("%")
+        try:
+            base = str(ipaddress.ip_address(base))
+        except ValueError:
+            pass
+        return (base + ("%" + zone if zone else ""), self.port, 0, 2 if zone else 0)
 
     def setsockopt(self, *a):
         self.opts.append(a)
